@@ -10,7 +10,10 @@ for d in "${dirs[@]}"; do
   [ -f "$d/patch.diff" ] || continue
   git -C "$VERIF_REPO" diff --quiet || { echo "/repo is not clean"; exit 2; }
   git -C "$VERIF_REPO" apply "$PWD/$d/patch.diff" || { echo "$name: patch does not apply"; continue; }
-  scripts/baseline_summary.sh > .work/bl.$$.txt 2>&1; bl=$(cat .work/bl.$$.txt | tail -1)
+  # REUSE_BASELINE=1: keep a suite result recorded earlier for this change (the suite run takes a minute per change)
+  bl=""
+  [ "${REUSE_BASELINE:-0}" = 1 ] && bl=$(python3 -c "import json; print(json.load(open('$d/meta.json')).get('baseline_suite_with_change',''))" 2>/dev/null)
+  if [ -z "$bl" ]; then scripts/baseline_summary.sh > .work/bl.$$.txt 2>&1; bl=$(cat .work/bl.$$.txt | tail -1); fi
   checks=$(python3 -c "import json,sys; m=json.load(open('$d/meta.json')); print(' '.join(m.get('run_checks',['$prop'])))" 2>/dev/null || echo $prop)
   res="{"
   for c in $checks; do
